@@ -19,12 +19,14 @@ CHECKS = {
     engine="pyvc"),
  "C01": dict(
     level=("other", "Deductive (small core): the state-layout loop of ComputeGraph.to_func assigns contiguous, pairwise disjoint, ordered "
-            "ranges to the state variables for any number and sizes of variables. Bounded run-time contract check for everything else: the postcondition of CircuitTemplate.get_run_func (distinct state layout, declared "
+            "ranges to the state variables for any number and sizes of variables; frame contracts: the functions that carry declared values and overrides into the compilation "
+            "(OperatorTemplate.apply, OperatorGraphTemplate.apply, CircuitTemplate.update_var, dict.from_operator, CircuitTemplate.clear) neither write into shared templates nor let "
+            "one call's values reach the operator cache. Bounded run-time contract check for everything else: the postcondition of CircuitTemplate.get_run_func (distinct state layout, declared "
             "argument values, derivative == reference semantics at random states and parameter draws) is evaluated on structured and seeded "
             "families of generated models; no verifier installed here can execute the sympy/networkx/exec pipeline symbolically, so nothing "
             "is claimed beyond the enumerated cases.", "5 C01"),
     note="Trusted: MDL rendering and spec_rhs (harness, no string parsing), float64 tolerance 1e-8, fork-per-case isolation.",
-    technique="contract-based deductive verification of the state-layout loop (pyvc) + bounded contract checking of the real API against a pure spec function (labelled bounded, not proved)", engine="pyvc", rtc=True),
+    technique="contract-based deductive verification of the state-layout loop (pyvc VCs, z3) and of frame conditions (%s) + bounded contract checking of the real API against a pure spec function (labelled bounded, not proved)" % FR_, engine="pyvc", rtc=True),
  "C03": dict(
     level=("other", "Proved core + bounded shell. Deductive (unbounded in steps, cadence, state): the real _solve_euler/_solve_heun loops (ODE and "
             "DDE variants) return exactly the Euler/Heun iterates in the stated rows, call the vector field with the step counter, feed the history "
